@@ -34,6 +34,9 @@ type Renderer struct {
 	stack map[ssa.Value]bool
 	// Forward: when true, loads from escaping scalar allocs with a unique store are forwarded.
 	allocOrd map[*ssa.Alloc]int
+	// subst renders parameters as the caller's argument terms (context-
+	// sensitive rendering used by the interprocedural walkers).
+	subst map[*ssa.Parameter]string
 }
 
 func NewRenderer(w *World, fn *ssa.Function) *Renderer {
@@ -349,6 +352,9 @@ func (r *Renderer) allocName(a *ssa.Alloc) string {
 func (r *Renderer) render1(v ssa.Value, depth int) string {
 	switch x := v.(type) {
 	case *ssa.Parameter:
+		if s, ok := r.subst[x]; ok {
+			return s
+		}
 		fn := x.Parent()
 		if fn != nil && fn.Signature.Recv() != nil && len(fn.Params) > 0 && fn.Params[0] == x {
 			return "recv"
